@@ -27,7 +27,13 @@ def main():
 		tier, seed, shard = r['tier'], r['seed'], r.get('shard')
 		print(f'replaying {a.replay}: tier={tier} seed={seed} shard={shard}')
 		print('recorded violation:', json.dumps(r['violation'])[:2000])
-	return core.run_property(mod, pid, tier, seed, only_shard=shard, jobs=a.jobs)
+	try:
+		return core.run_property(mod, pid, tier, seed, only_shard=shard, jobs=a.jobs)
+	except Exception as e:   # a crash of the harness itself is never a verdict about the repository
+		import traceback
+		traceback.print_exc()
+		print(f'INCONCLUSIVE property={pid} reason=harness crashed: {type(e).__name__}: {e}')
+		return core.EXIT_INCONCLUSIVE
 
 
 if __name__ == '__main__':
